@@ -58,6 +58,24 @@ type pdObs struct {
 
 func isLit(name string) bool { return strings.HasPrefix(name, "l") }
 
+// pdID is the IRI of a node: IRIs are compared as written, so every second one carries a non-ASCII letter, an upper-case
+// scheme or an empty fragment (spellings a URL library would "canonicalise")
+func pdID(n string) string {
+	k := 0
+	for _, c := range n {
+		k += int(c)
+	}
+	switch k % 4 {
+	case 1:
+		return nodeNS + n + "-caf\u00e9"
+	case 2:
+		return "HTTP://example.org/n/" + n
+	case 3:
+		return nodeNS + n + "#"
+	}
+	return nodeNS + n
+}
+
 func renderPdGraph(g pdGraph, custom string) string {
 	var graph []any
 	extTargets := map[string]bool{}
@@ -67,7 +85,7 @@ func renderPdGraph(g pdGraph, custom string) string {
 		}
 	}
 	for _, n := range g.Nodes {
-		node := map[string]any{"@id": nodeNS + n}
+		node := map[string]any{"@id": pdID(n)}
 		if extTargets[n] {
 			node["http://a.ml/vocabularies/core#extensionName"] = custom
 		}
@@ -85,13 +103,13 @@ func renderPdGraph(g pdGraph, custom string) string {
 			if custom != "" && e[1] == custom {
 				link := fmt.Sprintf("amf://id#link-%s-%d", n, len(links))
 				links = append(links, map[string]any{"@id": link})
-				node[link] = map[string]any{"@id": nodeNS + e[2]}
+				node[link] = map[string]any{"@id": pdID(e[2])}
 				continue
 			}
 			if isLit(e[2]) {
 				props[e[1]] = append(props[e[1]], map[string]any{"@value": "lit-" + e[2]})
 			} else {
-				props[e[1]] = append(props[e[1]], map[string]any{"@id": nodeNS + e[2]})
+				props[e[1]] = append(props[e[1]], map[string]any{"@id": pdID(e[2])})
 			}
 		}
 		for p, vs := range props {
@@ -133,7 +151,9 @@ func valueString(v any) string {
 }
 
 func strip(s string) string {
+	s = strings.TrimPrefix(s, "HTTP://example.org/n/")
 	s = strings.TrimPrefix(s, nodeNS)
+	s = strings.TrimSuffix(strings.TrimSuffix(s, "-caf\u00e9"), "#")
 	s = strings.TrimPrefix(s, exNS)
 	return strings.TrimPrefix(s, "lit-")
 }
